@@ -5,7 +5,8 @@ import PdModel.Proto
 ```
 config isq <t|s> <str>                      → True | False                       (is_quoted(text, triple))
 config unq <t|s> <str>                      → ok <str> | ValueError | unmodelled  (unquote_str)
-config quote <1d|1s|3d|3s> <str>            → <quoted> <isq> <unq…>               (quote1/quote3, then both)
+config quote <1d|1s|3d|3s|r1d|r1s|r3d|r3s> <str> → <quoted> <isq> <unq…>          (quote1/quote3 or the raw-NUL variants, then both)
+config isqold <t|s> <str> / unqold <t|s> <str>  → the recogniser / unquote_str before commits 65e15f6, cada0b1
 config inival <basic|none> <0|1> <str>      → skip | str <str> | list <str>* | error:<e> | unmodelled
         (none = the code today, `iniValue`; basic = `iniValueOld basicInterp`, before commit d27392d)
 config iniline <str>                        → <str>                               (str.strip)
@@ -176,6 +177,14 @@ def handle (args : List String) : String :=
     match decodeStr s with
     | some text => if isQuoted (t == "t") text then "True" else "False"
     | none => "bad-op"
+  | ["isqold", t, s] =>
+    match decodeStr s with
+    | some text => if isQuotedOld (t == "t") text then "True" else "False"
+    | none => "bad-op"
+  | ["unqold", t, s] =>
+    match decodeStr s with
+    | some text => showEval (unquoteStrOld (t == "t") text)
+    | none => "bad-op"
   | ["unq", t, s] =>
     match decodeStr s with
     | some text => showEval (unquoteStr (t == "t") text)
@@ -186,6 +195,8 @@ def handle (args : List String) : String :=
       let q? : Option Str := match form with
         | "1d" => some (quote1 '"' text) | "1s" => some (quote1 '\'' text)
         | "3d" => some (quote3 '"' text) | "3s" => some (quote3 '\'' text)
+        | "r1d" => some (quote1R '"' text) | "r1s" => some (quote1R '\'' text)
+        | "r3d" => some (quote3R '"' text) | "r3s" => some (quote3R '\'' text)
         | _ => none
       match q? with
       | some q => encodeStr q ++ " " ++ (if isQuoted true q then "True" else "False") ++ " " ++ showEval (unquoteStr true q)
